@@ -235,8 +235,168 @@ func (fa *frameAnalysis) run() {
 			}
 		}
 	}
-	// obligations
+	// escape of shared objects: a function must not return an object reachable from a
+	// package-level variable when the package's own exported API writes objects of that type
+	// through a receiver / parameter (a client calling that API on the returned object would
+	// write shared memory)
+	mutable := map[string]bool{}
+	for _, fn := range fs {
+		if fn.Object() == nil || !fn.Object().Exported() {
+			continue
+		}
+		for k := range fa.writesPar[fn] {
+			if k < len(fn.Params) {
+				if pt, ok := fn.Params[k].Type().Underlying().(*types.Pointer); ok {
+					if nt, ok := pt.Elem().(*types.Named); ok {
+						mutable[nt.Obj().Name()] = true
+					}
+				}
+			}
+		}
+	}
+	all := append([]*ssa.Function{}, fs...)
+	if in := fa.p.SPkg.Func("init"); in != nil {
+		all = append(all, in)
+	}
+	// dynAny: the concrete types a value may hold (whatever its provenance)
+	var dynAny func(v ssa.Value, depth int) []types.Type
+	dynAny = func(v ssa.Value, depth int) []types.Type {
+		if depth > 6 {
+			return nil
+		}
+		switch x := v.(type) {
+		case *ssa.MakeInterface:
+			return []types.Type{x.X.Type()}
+		case *ssa.ChangeInterface:
+			return dynAny(x.X, depth+1)
+		case *ssa.Call:
+			if callee := x.Call.StaticCallee(); callee != nil && callee.Pkg == fa.p.SPkg {
+				var out []types.Type
+				for _, b := range callee.Blocks {
+					for _, ins := range b.Instrs {
+						if r, ok := ins.(*ssa.Return); ok {
+							for _, res := range r.Results {
+								out = append(out, dynAny(res, depth+1)...)
+							}
+						}
+					}
+				}
+				return out
+			}
+		case *ssa.UnOp:
+			if al, ok := x.X.(*ssa.Alloc); ok {
+				var out []types.Type
+				for _, r := range *al.Referrers() {
+					if st, ok := r.(*ssa.Store); ok && st.Addr == al {
+						out = append(out, dynAny(st.Val, depth+1)...)
+					}
+				}
+				return out
+			}
+		}
+		if _, isIface := v.Type().Underlying().(*types.Interface); !isIface {
+			return []types.Type{v.Type()}
+		}
+		return nil
+	}
+	shCache := map[*ssa.Function]map[ssa.Value]bool{}
+	shOf := func(fn *ssa.Function) map[ssa.Value]bool {
+		if m, ok := shCache[fn]; ok {
+			return m
+		}
+		m := fa.sharedIn(fn)
+		shCache[fn] = m
+		return m
+	}
+	// dynShared: the concrete types of the SHARED objects that may flow into v (a value of fn)
+	var dynShared func(fn *ssa.Function, v ssa.Value, depth int) []types.Type
+	dynShared = func(fn *ssa.Function, v ssa.Value, depth int) []types.Type {
+		if depth > 6 || !shOf(fn)[v] {
+			return nil
+		}
+		switch x := v.(type) {
+		case *ssa.MakeInterface:
+			if shOf(fn)[x.X] {
+				return []types.Type{x.X.Type()}
+			}
+			return nil
+		case *ssa.ChangeInterface:
+			return dynShared(fn, x.X, depth+1)
+		case *ssa.Call:
+			if callee := x.Call.StaticCallee(); callee != nil && callee.Pkg == fa.p.SPkg {
+				var out []types.Type
+				for _, b := range callee.Blocks {
+					for _, ins := range b.Instrs {
+						if r, ok := ins.(*ssa.Return); ok {
+							for _, res := range r.Results {
+								out = append(out, dynShared(callee, res, depth+1)...)
+							}
+						}
+					}
+				}
+				return out
+			}
+			return nil
+		case *ssa.UnOp:
+			if al, ok := x.X.(*ssa.Alloc); ok {
+				var out []types.Type
+				for _, r := range *al.Referrers() {
+					if st, ok := r.(*ssa.Store); ok && st.Addr == al {
+						out = append(out, dynShared(fn, st.Val, depth+1)...)
+					}
+				}
+				return out
+			}
+			if gl, ok := x.X.(*ssa.Global); ok {
+				// everything ever stored into the package-level variable
+				var out []types.Type
+				for _, fn2 := range all {
+					for _, b := range fn2.Blocks {
+						for _, ins := range b.Instrs {
+							if st, ok := ins.(*ssa.Store); ok && st.Addr == gl {
+								out = append(out, dynAny(st.Val, 0)...)
+							}
+						}
+					}
+				}
+				return out
+			}
+		}
+		if _, isIface := v.Type().Underlying().(*types.Interface); !isIface {
+			return []types.Type{v.Type()}
+		}
+		return nil
+	}
 	fa.perFunc = map[string]int{}
+	for _, fn := range fs {
+		if fn.Name() == "init" || strings.HasPrefix(fn.Name(), "init#") {
+			continue
+		}
+		sh := fa.sharedIn(fn)
+		for _, b := range fn.Blocks {
+			for _, ins := range b.Instrs {
+				r, ok := ins.(*ssa.Return)
+				if !ok {
+					continue
+				}
+				for _, res := range r.Results {
+					if !sh[res] {
+						continue
+					}
+					for _, t := range dynShared(fn, res, 0) {
+						if pt, ok := t.Underlying().(*types.Pointer); ok {
+							if nt, ok := pt.Elem().(*types.Named); ok && mutable[nt.Obj().Name()] {
+								fa.obligation++
+								pos := fa.p.Prog.Fset.Position(ins.Pos())
+								fa.violations = append(fa.violations, fmt.Sprintf("%s: returns a shared *%s, a type the package's exported API writes through its receiver / parameter  [%s:%d]", funcKey(fn), nt.Obj().Name(), filepath.Base(pos.Filename), pos.Line))
+							}
+						}
+					}
+				}
+			}
+		}
+	}
+	// obligations
 	for _, fn := range fs {
 		key := funcKey(fn)
 		base := fn
@@ -419,7 +579,7 @@ func cmdCheckC19(tier string, seed int) int {
 	ev := map[string]any{
 		"property_id": prop, "tier": tier, "seed": seed, "level": "other", "wall_s": time.Since(t0).Seconds(), "violations": len(fa.violations),
 		"coverage": map[string]any{
-			"explanation": "Frame (ownership) theorem over the go/ssa form of every function of the package: each instruction that can write memory (Store, MapUpdate, append/copy/delete/clear, calls with a write summary, non-pure external calls) is an obligation, discharged when its target is neither a package-level variable nor reachable from one (taint fixpoint with interprocedural summaries). With no writes to shared library state outside the registration API, statements that own their plan, AST and ExecuteCtx share only immutable memory; under the Go memory model that excludes data races for every schedule, and determinism of each statement is what the other properties' postconditions state. No schedule is explored: this family cannot do that.",
+			"explanation": "Frame (ownership) theorem over the go/ssa form of every function of the package: each instruction that can write memory (Store, MapUpdate, append/copy/delete/clear, calls with a write summary, non-pure external calls) is an obligation, discharged when its target is neither a package-level variable nor reachable from one (taint fixpoint with interprocedural summaries). A second rule covers escape: no function returns an object reachable from a package-level variable when the package's own exported API writes objects of that type through a receiver or parameter (a client calling BindQuery / SetPadding on such an object would write shared memory) - provenance is followed through local cells, calls and the initialiser. With no writes to shared library state outside the registration API, statements that own their plan, AST and ExecuteCtx share only immutable memory; under the Go memory model that excludes data races for every schedule, and determinism of each statement is what the other properties' postconditions state. No schedule is explored: this family cannot do that.",
 			"obligations": fa.obligation, "discharged": fa.obligation - len(fa.violations),
 			"checker_cmd": "/verif/bin/kvc check C19 --tier " + tier,
 			"trusted_base": []string{"T-SSA: go/ssa build of the package", "the taint analysis of /verif/engine/cmd/kvc/frame.go (syntactic back end, no solver)"},
